@@ -120,6 +120,27 @@ def step (st : State) (w : List String) : State × String :=
       | .ok => some "ok"
       | .fail _ => some "fail"
     (st, r.getD "bad-op")
+  | "synth" :: "check" :: _ =>
+    let r : Option String := do
+      let ds ← (listOf (field w "D")).mapM fun t =>
+        match t.splitOn "/" with
+        | [o, tg] => some ({ owner := parseName o, rtype := tDNAME, target := some (parseName tg) } : RR)
+        | _ => none
+      let c : RR := { owner := parseName (field w "owner"), rtype := tCNAME, target := some (parseName (field w "target")) }
+      some (boolStr (isSynthesizedCNAME c ds))
+    (st, r.getD "bad-op")
+  | "deleg" :: "nsec" :: _ =>
+    let r : Option String := do
+      let ns ← (listOf (field w "N")).mapM fun t =>
+        match t.splitOn "/" with
+        | [o, bits] => some ({ owner := parseName o, ns := bits.contains 'n', ds := bits.contains 'd', soa := bits.contains 's' } : DelegNSEC)
+        | _ => none
+      match verifyDelegationNSEC (parseName (field w "q")) ns with
+      | .ok => some "ok"
+      | .nsMissing => some "fail:nsmissing"
+      | .badDelegation => some "fail:baddelegation"
+      | .noCover => some "fail:nocover"
+    (st, r.getD "bad-op")
   | ["ad", "edns", cd, dob, ad, opt, proto, _born, respAD, big, _wire] =>
     match bools [cd, dob, ad, opt, respAD, big] with
     | some [cd, dob, ad, opt, respAD, big] =>
